@@ -181,9 +181,9 @@ type valGen struct {
 	special bool // allow NaN / ±Inf (only for top-level numbers)
 }
 
-var hostNumPool = []float64{0, 1, -1, 2, 3, 0.5, -0.5, 1.5, 2.5, 10, 42, 100, 1e-9, 9.999999e-10, 1.0000001e-9, 255, 256, 65535,
+var hostNumPool = []float64{math.Copysign(0, -1), 4611686018427387904, 0, 1, -1, 2, 3, 0.5, -0.5, 1.5, 2.5, 10, 42, 100, 1e-9, 9.999999e-10, 1.0000001e-9, 255, 256, 65535,
 	9007199254740992, 9007199254740993, 9223372036854775807, -9223372036854775808, 1e15, 1e21, 1e30, 2e30, -1e30, 0.1, 0.2, 0.30000000000000004, 123456789.125, 1e-7, 5e-324}
-var hostStrPool = []string{"", "a", "b", "ab", "k1", "k2", "hello", "x y", "é", "中文", "a\"b", "a\\b", "\n", "\t", "\x01", " ", "😀", "aaa"}
+var hostStrPool = []string{"a, b", "x: y", "[a, b]", "", "a", "b", "ab", "k1", "k2", "hello", "x y", "é", "中文", "a\"b", "a\\b", "\n", "\t", "\x01", " ", "😀", "aaa"}
 
 func (g *valGen) num() float64 {
 	if g.special && g.r.Intn(12) == 0 {
